@@ -455,7 +455,21 @@ def check_property(prop, tier, only=None, jobs=None, seed=0):
                 log(f"ALSO-FAILED {h.name} (not replayed: a violation is already confirmed); "
                     f"failed checks: {r['failed_checks'][:4]}")
                 continue
-            path, rep = make_replay(h, prop, tier, logdir)
+            real_fc = [f for f in r["failed_checks"] if "unwinding assertion" not in f]
+            if real_fc and all("[stub-observed]" in f for f in real_fc):
+                # The failed assertion is about a value observed inside a Kani stub (e.g. the argument
+                # a stubbed callee received). Concrete playback runs without stubs, so a native replay
+                # cannot evaluate it; the verdict rests on the solver's counterexample.
+                path = os.path.join(VERIF, "replay", prop, h.name)
+                shutil.rmtree(path, ignore_errors=True)
+                os.makedirs(path, exist_ok=True)
+                open(os.path.join(path, "SOLVER-ONLY.md"), "w").write(
+                    f"# {prop} / {h.name}\n\nFailed checks: {real_fc}\n\nThe refuted assertion observes a value inside a Kani stub; "
+                    f"native playback does not apply stubs, so this counterexample is reported on the solver's verdict.\n"
+                    f"Re-run: `cd /verif && ./check {prop} --tier {tier} --only {h.name}`.\n")
+                rep = "tool-limit"
+            else:
+                path, rep = make_replay(h, prop, tier, logdir)
             r["replay"] = path
             r["reproduced"] = rep
             if rep is True or rep == "tool-limit":
